@@ -671,23 +671,24 @@ func TestSweepStress(t *testing.T) {
 // registration) or that only reads (a query) and yet moves the expiry of the record, and a successful refresh
 // that does not move it. In the model a refused call leaves the table as it was, expiry included, and a record
 // whose expiry lies hours back with a refresh interval of hours ahead never arises from registrations with
-// hour-sized TTLs. Here a name is registered for two seconds on a table of its own, the call is made 1.5 s
-// later, and the table is swept a good second after the two seconds are over:
+// hour-sized TTLs. Here a name is registered for three seconds on a table of its own, the call is made 2.5 s
+// later, and the table is swept two good seconds after the three seconds are over:
 //   - the name must then be gone (a sweep "removes names that have exceeded their TTL") and free for another
 //     address, whatever refused or read-only call was made in between;
-//   - a refresh by the owner at 1.5 s must keep the name through a sweep at 2.3 s.
+//   - a refresh by the owner at 2.5 s must keep the name through a sweep at 3.3 s.
 // Soundness under load: the harness only sleeps at least as long as needed and judges by clock readings taken
-// around the calls. "Must be gone" is asserted at a moment that is later than registration return + TTL + 1 s (the
-// extra second allows a table that rounds an expiry up to the protocol's granularity of one second); "must still
-// be there" only if the clock read after the query is still below (clock read before the refresh) + TTL, and
-// the outcome of a call that needs a live name only if the clock read after it is below (clock read before the
-// registration) + TTL. A case that comes too late for its window is counted as "late" and not judged.
+// around the calls. "Must be gone" is asserted at a moment that is later than registration return + TTL + 2 s (the
+// two extra seconds allow a table that rounds the expiry up to the protocol's granularity of one second when it
+// stores it and compares against a clock truncated to the second when it sweeps); "must still be there" only if
+// the clock read after the query is still below (clock read before the refresh) + TTL, and the outcome of a call
+// that needs a live name only if the clock read after it is below (clock read before the registration) + TTL. A
+// case that comes too late for its window is counted as "late" and not judged.
 
-const expTTL = 2 * time.Second
+const expTTL = 3 * time.Second
 
 type expCase struct {
 	Type    int    `json:"type"` // 0 unique, 1 group
-	Op      string `json:"call_at_1.5s"`
+	Op      string `json:"call_at_2.5s"`
 	Variant int    `json:"variant"` // 0: IPv4 addresses, unsecured table; 1: IPv6 owner, secured table
 	Round   int    `json:"round"`
 }
@@ -728,7 +729,7 @@ func runExpiry(c expCase, late *int32) []vf.Finding {
 	} else {
 		atomic.AddInt32(late, 1)
 	}
-	sleepUntil(t1.Add(1500 * time.Millisecond))
+	sleepUntil(t1.Add(expTTL - 500*time.Millisecond))
 	tb := time.Now()
 	var opErr error
 	subject := "CleanExpiredNames"
@@ -794,8 +795,8 @@ func runExpiry(c expCase, late *int32) []vf.Finding {
 		}
 		return nil
 	}
-	// the two seconds (and one more) are over: the sweep removes the name, whatever was called at 1.5 s
-	sleepUntil(t1.Add(expTTL + time.Second + 50*time.Millisecond))
+	// the three seconds (and two more) are over: the sweep removes the name, whatever was called at 2.5 s
+	sleepUntil(t1.Add(expTTL + 2*time.Second + 50*time.Millisecond))
 	tbl.CleanExpiredNames()
 	if owners, qt, err := tbl.QueryName(name); err == nil {
 		kind := "refused-call-extends-lifetime"
@@ -807,10 +808,10 @@ func runExpiry(c expCase, late *int32) []vf.Finding {
 		return []vf.Finding{vf.F(subject, kind, "%s name registered by %v for %v; call at %v: %s (result: %v); swept %v after the registration: Query still gives %v, %v", tn, owner, expTTL, tb.Sub(t0).Round(time.Millisecond), c.Op, opErr, time.Since(t0).Round(time.Millisecond), owners, qt)}
 	}
 	if err := tbl.RegisterName(name, nbtns.Unique, other, time.Hour); err != nil {
-		return []vf.Finding{vf.F("RegisterName", "name-not-free-after-expiry", "after the %s name of %v expired and was swept (call at 1.5 s: %s), Register(Unique, %v) = %v", tn, owner, c.Op, other, err)}
+		return []vf.Finding{vf.F("RegisterName", "name-not-free-after-expiry", "after the %s name of %v expired and was swept (call at 2.5 s: %s), Register(Unique, %v) = %v", tn, owner, c.Op, other, err)}
 	}
 	if owners, qt, err := tbl.QueryName(name); !isOwner(owners, qt, err, other, nbtns.Unique) {
-		return []vf.Finding{vf.F("RegisterName", "name-not-free-after-expiry", "after the %s name of %v expired and was swept (call at 1.5 s: %s) and %v registered it: Query = %v, %v, %v", tn, owner, c.Op, other, owners, qt, err)}
+		return []vf.Finding{vf.F("RegisterName", "name-not-free-after-expiry", "after the %s name of %v expired and was swept (call at 2.5 s: %s) and %v registered it: Query = %v, %v, %v", tn, owner, c.Op, other, owners, qt, err)}
 	}
 	return nil
 }
